@@ -15,6 +15,7 @@ import vbuild
 
 VERIF = os.path.dirname(os.path.dirname(os.path.abspath(__file__)))
 FILLS = [255, 85, 1, 128]
+FILLS_QUICK = [255, 128]      # fresh memory reads as 0.0 / 1.4e306 (freed: -nan / -2.9e-306): the two most different worlds
 
 
 def first_repo_frame(text):
@@ -49,17 +50,20 @@ def run(cfg, all_checks, tier, seed, repo, replay_dir):
     delegates = cfg['delegates'][tier] if isinstance(cfg['delegates'], dict) else cfg['delegates']
     coverage = {'delegates': {}, 'samples': []}
     violations, internal = [], []
-    jobs = []   # (delegate id, mode, variant, env)
+    jobs = []   # (delegate id, mode, variant, env, shard, nshards): the delegates' own work splitting is reused; digests are additive over shards
     for d in delegates:
-        jobs.append((d, 'asan', 'asan-c1d0', {}))
-        for n in FILLS:
-            jobs.append((d, 'fill%d' % n, 'plain-c1d0', {'GLIBC_TUNABLES': 'glibc.malloc.tcache_count=0:glibc.malloc.perturb=%d' % n}))
-        if d in cfg.get('stack_fill_delegates', []):
-            jobs.append((d, 'stack-zero', 'init0-c1d0', {}))
-            jobs.append((d, 'stack-pattern', 'initP-c1d0', {}))
+        ns = int(all_checks[d].get('shards', {}).get('quick', 1))
+        for k in range(ns):
+            jobs.append((d, 'asan', 'asan-c1d0', {}, k, ns))
+            for n in (FILLS if tier == 'thorough' else FILLS_QUICK):
+                jobs.append((d, 'fill%d' % n, 'plain-c1d0', {'GLIBC_TUNABLES': 'glibc.malloc.tcache_count=0:glibc.malloc.perturb=%d' % n}, k, ns))
+            if d in cfg.get('stack_fill_delegates', []):
+                jobs.append((d, 'stack-zero', 'init0-c1d0', {}, k, ns))
+                jobs.append((d, 'stack-pattern', 'initP-c1d0', {}, k, ns))
+    jobs.sort(key=lambda j: 0 if j[1] == 'asan' else 1)     # the slow sanitizer runs first
     # build everything first
     exes = {}
-    for d, mode, variant, env in jobs:
+    for d, mode, variant, env, _k, _ns in jobs:
         if (d, variant) in exes:
             continue
         try:
@@ -70,10 +74,10 @@ def run(cfg, all_checks, tier, seed, repo, replay_dir):
     deadline = cfg.get('delegate_deadline_s', {}).get(tier, 120)
 
     def one(job):
-        d, mode, variant, extra = job
+        d, mode, variant, extra, shard, nshards = job
         exe = exes[(d, variant)]
-        out = os.path.join(VERIF, 'build', 'run', 'C10-%s-%s-%d.json' % (d, mode, os.getpid()))
-        logp = os.path.join(VERIF, 'build', 'run', 'asan-c10-%s-%s-%d' % (d, mode, os.getpid()))
+        out = os.path.join(VERIF, 'build', 'run', 'C10-%s-%s-%d-%d.json' % (d, mode, os.getpid(), shard))
+        logp = os.path.join(VERIF, 'build', 'run', 'asan-c10-%s-%s-%d-%d' % (d, mode, os.getpid(), shard))
         env = dict(os.environ)
         env.update(all_checks[d].get('env', {}))
         env.update(extra)
@@ -82,7 +86,7 @@ def run(cfg, all_checks, tier, seed, repo, replay_dir):
             env['ASAN_OPTIONS'] = 'detect_leaks=0:abort_on_error=0:log_path=%s' % logp
             env['UBSAN_OPTIONS'] = 'print_stacktrace=1:log_path=%s' % logp
         cmd = [exe, '--tier', 'quick', '--seed', str(seed), '--out', out, '--replaydir', replay_dir, '--variant', variant,
-               '--deadline', str(deadline * (3 if mode == 'asan' else 1)), '--repo', repo]
+               '--deadline', str(deadline * (3 if mode == 'asan' else 1)), '--repo', repo, '--shard', str(shard), '--nshards', str(nshards)]
         try:
             subprocess.run(cmd, cwd=VERIF, env=env, stdout=subprocess.PIPE, stderr=subprocess.PIPE, text=True, errors='replace', timeout=deadline * 8 + 120)
         except subprocess.TimeoutExpired:
@@ -102,13 +106,20 @@ def run(cfg, all_checks, tier, seed, repo, replay_dir):
 
     digests = {}
     total_states = total_trans = 0
-    for (d, mode, variant, extra), res, err, reports in results:
+    for (d, mode, variant, extra, shard, nshards), res, err, reports in results:
         if err or res is None:
             internal.append(err or 'delegate %s/%s produced no result' % (d, mode))
             continue
         cov = res.get('coverage', {})
         entry = coverage['delegates'].setdefault(d, {})
-        entry[mode] = {'states': cov.get('states'), 'transitions': cov.get('transitions'), 'digest': cov.get('digest'), 'exhaustive': cov.get('exhaustive')}
+        prev = entry.get(mode)
+        cur = {'states': cov.get('states') or 0, 'transitions': cov.get('transitions') or 0, 'digest': cov.get('digest') or '0', 'exhaustive': bool(cov.get('exhaustive')), 'shards': 1}
+        if prev:
+            cur = {'states': prev['states'] + cur['states'], 'transitions': prev['transitions'] + cur['transitions'], 'digest': '%016x' % ((int(prev['digest'], 16) + int(cur['digest'], 16)) % (1 << 64)),
+                   'exhaustive': prev['exhaustive'] and cur['exhaustive'], 'shards': prev['shards'] + 1}
+            if 'not_compared' in prev:
+                cur['not_compared'] = prev['not_compared']
+        entry[mode] = cur
         if mode == 'asan':
             total_states += cov.get('states', 0) or 0
             total_trans += cov.get('transitions', 0) or 0
@@ -132,12 +143,20 @@ def run(cfg, all_checks, tier, seed, repo, replay_dir):
             for v in res.get('violations', []):
                 if v.get('key', '').startswith('crash:'):
                     violations.append({'key': 'crash|%s|%s|%s' % (d, mode, v['key']), 'what': 'driver %s with %s crashed: %s' % (d, mode, v.get('what', '')[:300]), 'replay': v.get('replay', '')})
-            if cov.get('exhaustive') and not [v for v in res.get('violations', []) if v.get('key', '').startswith('crash:')]:
-                digests.setdefault(d, {})[mode] = (cov.get('digest'), cov.get('states'), cov.get('transitions'))
-            else:
+            if not (cov.get('exhaustive') and not [v for v in res.get('violations', []) if v.get('key', '').startswith('crash:')]):
                 entry[mode]['not_compared'] = 'run capped by its deadline or crashed'
+    for d, entry in coverage['delegates'].items():
+        for mode, e in entry.items():
+            if mode != 'asan' and 'not_compared' not in e:
+                digests.setdefault(d, {})[mode] = (e['digest'], e['states'], e['transitions'])
     compared = 0
+    groups = []
     for d, m in digests.items():
+        groups.append((d, {k: v for k, v in m.items() if k.startswith('fill')}))
+        groups.append((d, {k: v for k, v in m.items() if k.startswith('stack')}))
+    for d, m in groups:
+        if not m:
+            continue
         vals = set(m.values())
         compared += len(m)
         if len(vals) > 1:
@@ -154,9 +173,9 @@ def run(cfg, all_checks, tier, seed, repo, replay_dir):
     coverage['traces_validated_against_impl'] = total_trans
     coverage['fill_runs_compared'] = compared
     coverage['exhaustive'] = all((e.get('asan') or {}).get('exhaustive') for e in coverage['delegates'].values()) if coverage['delegates'] else False
-    coverage['samples'] = [{'delegate': d, 'mode': mode, 'variant': variant, 'env': extra} for (d, mode, variant, extra) in jobs[:6]]
+    coverage['samples'] = [{'delegate': d, 'mode': mode, 'variant': variant, 'env': extra, 'shard': '%d/%d' % (k, ns)} for (d, mode, variant, extra, k, ns) in jobs[:6]]
     coverage['rule'] = ('states/transitions = those of the delegate drivers under the ASan+UBSan build (union of their exhaustive explorations); evaluations = delegate runs '
-                        '(1 sanitizer run + %d heap fills [+ 2 stack fills] per delegate); a violation = a sanitizer report / crash in any delegate, or digests that differ between fills' % len(FILLS))
+                        '(1 sanitizer run + %d heap fills [+ 2 stack fills] per delegate and shard); a violation = a sanitizer report / crash in any delegate, or digests that differ between fills' % len(FILLS if tier == 'thorough' else FILLS_QUICK))
     assumptions = ['scenario set = union of the quick-tier explorations of ' + ', '.join(delegates) + ' (plus C15 and C17, which run their own ASan/TSan builds)',
                    'heap contents are enumerated through glibc (tcache off, perturb byte N: fresh = ~N, freed = N), stack contents through -ftrivial-auto-var-init; a fill run that was capped by its deadline is not compared',
                    'functional violations of the delegates are the business of their own properties and are ignored here']
